@@ -257,15 +257,16 @@ PROPS["C19"] = {
     ],
 }
 PROPS["C20"] = {
-    "level_text": "Server-side URL analysis is the inverse of the documented client join: for symbolic path (1..6/10 bytes, any byte but a trailing '/'), symbolic query (0..6/10 bytes) and track 0..9, plus template paths containing trackID= look-alike segments with and without a query, getPathAndQueryAndTrackID / findMediaByTrackID / getPathAndQuery return exactly path, query and track for the FFmpeg and GStreamer layouts. DESCRIBE/SETUP agreement: for streams of 1..3 (5) medias with any subset of back channels, requested or not, every control attribute handed out by descForDescribe resolves through findMediaByTrackID to the media its entry describes. Client/server pair through the real code on both sides: stream URL (path of 1-2 segments of symbolic URL-safe bytes, optionally a trackID= look-alike segment, query absent or symbolic) -> real net/url parse -> Content-Base -> real description.Media.URL -> real getPathAndQueryAndTrackID / getPathAndQuery: same path, query and track. Base URL choice: the same pair with the base URL taken by the real findBaseURL from an absolute, a relative or an absent Content-Base. Client-side join rule: description.Media.URL on relative control attributes of 1-2 (3) symbolic URL-safe bytes incl. '/' and '?' anywhere, against four base shapes, equals base + control with a '/' inserted exactly when the documented rule says so. Credentials: a request whose URL carries symbolic user-info marshals to the same bytes as without it, for all ten methods.",
-    "level_note": 'Outside: percent-escapes and characters that need escaping, IPv6 / hostname variety of the authority, absolute / query-style / leading-slash control attributes of third-party cameras, findMediaByURL on record, session-level control attributes.',
+    "level_text": "Server-side URL analysis is the inverse of the documented client join: for symbolic path (1..6/10 bytes, any byte but a trailing '/'), symbolic query (0..6/10 bytes) and track 0..9, plus template paths containing trackID= look-alike segments with and without a query, getPathAndQueryAndTrackID / findMediaByTrackID / getPathAndQuery return exactly path, query and track for the FFmpeg and GStreamer layouts. DESCRIBE/SETUP agreement: for streams of 1..3 (5) medias with any subset of back channels, requested or not, every control attribute handed out by descForDescribe resolves through findMediaByTrackID to the media its entry describes. Client/server pair through the real code on both sides: stream URL (path of 1-2 segments of symbolic URL-safe bytes, optionally a trackID= look-alike segment, query absent or symbolic) -> real net/url parse -> Content-Base -> real description.Media.URL -> real getPathAndQueryAndTrackID / getPathAndQuery: same path, query and track. Base URL choice: the same pair with the base URL taken by the real findBaseURL from an absolute, a relative or an absent Content-Base. Client-side join rule: description.Media.URL on relative control attributes of 1-2 (3) symbolic URL-safe bytes incl. '/' and '?' anywhere, against four base shapes, equals base + control with a '/' inserted exactly when the documented rule says so. Record side (ANNOUNCE then SETUP): stream URL whose path is made of 1-2 segments of ANY characters legal in a URL path (letters, digits, unreserved marks, sub-delimiters !$&'()*+,;= and ':') with or without a query -> real net/url parse -> getPathAndQuery(announce) -> client numbering trackID=i -> real description.Media.URL -> URL as text -> real findMediaByURL: the SETUP reaches the media it was issued for and the ANNOUNCE handler saw the stream's path and query. Credentials: a request whose URL carries symbolic user-info marshals to the same bytes as without it, for all ten methods.",
+    "level_note": 'Outside: percent-escapes and characters that need escaping, IPv6 / hostname variety of the authority, absolute / query-style / leading-slash control attributes of third-party cameras, an at-sign in paths (credential pre-filter of base.ParseURL is a regexp), session-level control attributes.',
     "runs": [R("split", ".", "root", ["ZzC20Split", "ZzC20SplitLookalike"], params={"GOSTUB": 1}, extras=_EXTRAS, quick_params={"PL": 6, "QL": 6}, thorough_params={"PL": 10, "QL": 10}),
              R("client-server-pair", ".", "root", ["ZzC20ClientServerPair"], params={"GOSTUB": 1}, extras=_EXTRAS, flags={"concoff": True}, quick_params={"PL": 2, "QL": 2}, thorough_params={"PL": 3, "QL": 3}),
              R("client-server-pair-lookalike", ".", "root", ["ZzC20ClientServerPair"], params={"GOSTUB": 1, "LOOK": 1}, extras=_EXTRAS, flags={"concoff": True}, quick_params={"PL": 1, "QL": 1}, thorough_params={"PL": 2, "QL": 2}),
              R("find-base-url", ".", "root", ["ZzC20FindBaseURL"], params={"GOSTUB": 1}, extras=_EXTRAS, flags={"concoff": True}, quick_params={"PL": 2, "QL": 2}, thorough_params={"PL": 3, "QL": 3}),
              R("no-credentials", ".", "root", ["ZzC20NoCredentials"], params={"GOSTUB": 1}, extras=_EXTRAS, flags={"concoff": True}),
              R("media-url-join", "pkg/description", "pkg/description", ["ZzC20MediaURLJoin"], flags={"concoff": True}, quick_params={"CL": 2}, thorough_params={"CL": 3}),
-             R("describe-control", ".", "root", ["ZzC20DescribeControl"], params={"GOSTUB": 1}, extras=_EXTRAS, quick_params={"N": 3}, thorough_params={"N": 5})],
+             R("describe-control", ".", "root", ["ZzC20DescribeControl"], params={"GOSTUB": 1}, extras=_EXTRAS, quick_params={"N": 3}, thorough_params={"N": 5}),
+             R("record-setup", ".", "root", ["ZzC20RecordSetup"], params={"GOSTUB": 1}, extras=_EXTRAS, flags={"concoff": True}, quick_params={"PL": 1, "QL": 1}, thorough_params={"PL": 2, "QL": 2})],
 }
 
 # ---------------------------------------------------------------- C04
